@@ -243,6 +243,12 @@ REG.add(Contract(
         P(['C13', 'C02'], 'text-leaf-is-the-token', 'kind(result) == K("TexText") ==> etok(result) == src.Q[old(src.i)]'),
         P(['C08', 'C01'], 'exact-when-tight', 'tolerance == 0 and cleansrc(src) and tight(result) ==> ser(result) == ' + _RE_SPAN),
         P(['C08'], 'conserves-non-blank', 'tolerance == 0 and cleansrc(src) and clean(result) ==> NW(ser(result)) == NW(%s)' % _RE_SPAN),
+        # C12: the opening token alone decides that a math region is read, in every mode (pairs named by the property)
+        P(['C12', 'C02'], 'math-opener-yields-the-math-node-of-its-kind',
+          '(src.Q[old(src.i)].cat == TC.MathSwitch ==> kind(result) == K("TexMathModeEnv")) and '
+          '(src.Q[old(src.i)].cat == TC.DisplayMathSwitch ==> kind(result) == K("TexDisplayMathModeEnv")) and '
+          '(src.Q[old(src.i)].cat == TC.MathGroupBegin ==> kind(result) == K("TexMathEnv")) and '
+          '(src.Q[old(src.i)].cat == TC.DisplayMathGroupBegin ==> kind(result) == K("TexDisplayMathEnv"))'),
         P(['C11'], 'skipped-environment-body-is-one-raw-text',
           'kind(result) == K("TexNamedEnv") and mode != "mode:special" and ename(result) in skip_envs ==> '
           'len(body(result)) <= 1'),
@@ -283,13 +289,17 @@ for _fn, _n, _open, _props in (('read_arg_optional', 'n_optional', 'TC.BracketBe
     _ens.append(P(_props + ['C08'], 'maximal-run-spacer-rolled-back', _maximal) if _fn == 'read_arg_optional' else
                 P(_props + ['C08'], 'maximal-run-spacer-rolled-back',
                   '%s <= 0 ==> (%s)' % (_n, _maximal)))
+    _ens.append(A('no-move-without-arg', 'len(args.items) == len(old(args.items)) ==> src.i == old(src.i)'))
+    _ens.append(A('count-tracks-growth', 'result == %s - (len(args.items) - len(old(args.items)))' % _n))
     if _fn == 'read_arg_optional':
         _ens.append(A('no-bare-added', 'bare(args.items) == bare(old(args.items))'))
     else:
         _ens.append(P(['C08'], 'bare-only-with-signature', '%s <= 0 ==> bare(args.items) == bare(old(args.items))' % _n))
     _inv = [A(l, t) for l, t in args_clauses('old(args.items)', 'old(src.i)')] + \
            [A(l, t) for l, t in count_clauses(_n, 'old(%s)' % _n)] + \
-           [A('inv', 'inv(src)'), A('range', 'old(src.i) <= src.i')]
+           [A('inv', 'inv(src)'), A('range', 'old(src.i) <= src.i'),
+            A('no-move-without-arg', 'len(args.items) == len(old(args.items)) ==> src.i == old(src.i)'),
+            A('count-tracks-growth', '%s == old(%s) - (len(args.items) - len(old(args.items)))' % (_n, _n))]
     if _fn == 'read_arg_optional':
         _inv.append(A('no-bare-added', 'bare(args.items) == bare(old(args.items))'))
     else:
@@ -314,6 +324,16 @@ REG.add(Contract(
         P(['C12'], 'zero-signature-takes-nothing',
           'n_required == 0 and n_optional == 0 ==> src.i == old(src.i) and len(result.items) == 0'),
         P(['C08'], 'bare-only-with-signature', 'n_required <= 0 ==> not bare(result.items)'),
+        # C09, completeness: a bracket group that directly follows, or follows one merged spacer (blanks with at most one
+        # line break), is attached - in every mode
+        P(['C09'], 'an-attachable-bracket-group-is-attached',
+          'n_optional != 0 and old(src.i) < len(src.Q) and (src.Q[old(src.i)].cat == TC.BracketBegin or '
+          '(src.Q[old(src.i)].cat == TC.MergedSpacer and old(src.i) + 1 < len(src.Q) and '
+          'src.Q[old(src.i) + 1].cat == TC.BracketBegin)) ==> len(result.items) >= 1'),
+        P(['C09'], 'an-attachable-brace-group-is-attached',
+          'n_required < 0 and n_optional < 0 and old(src.i) < len(src.Q) and (src.Q[old(src.i)].cat == TC.GroupBegin or '
+          '(src.Q[old(src.i)].cat == TC.MergedSpacer and old(src.i) + 1 < len(src.Q) and '
+          'src.Q[old(src.i) + 1].cat == TC.GroupBegin)) ==> len(result.items) >= 1'),
         A('groups-or-commands', 'allargs(result.items)')]))
 
 
